@@ -54,6 +54,14 @@ def lift(model, req):
 
 
 WITNESSES = {
+ "F13-subscription-defer-invalid-argument": r'''
+from graphql import build_schema, graphql_sync, parse, validate
+s = build_schema("type Query { a: Int } type Subscription { a: Int }")
+for q in ['subscription { ... @defer(if: "bad") { a } }', 'subscription { ... @defer(if: 1) { a } }',
+          'subscription { ... @defer(label: 3) { a } }']:
+    r = graphql_sync(s, q)
+    assert r.data is None and r.errors
+''',
  'F1-lexer-escape-at-end-of-source': r'''
 from graphql import parse, parse_value, GraphQLSyntaxError
 for s in ['{ f(a: "\\', '"\\u12', '"\\uD83D\\u12', '{f(a:"\\u', '"\\u{', '"\\u{12']:
